@@ -16,7 +16,11 @@ RULE = ("random client histories with a transport fault (receive error, send err
         "pending call + batch + subscribe then a silence of limit*(max_failures+2)+2*interval ms -> everything fails with the inactivity "
         "cause, pongs / answers / notifications every 25 ms for longer than that -> stays up and answers everything, a ping that "
         "cannot be written -> send-fault cause, three partly stale silences -> the count is cumulative; max_failures 1..3, three "
-        "interval/limit pairs, slow close; cases whose measured gaps left the safe classes are re-run, not judged).  "
+        "interval/limit pairs, slow close; cases whose measured gaps left the safe classes are re-run, not judged; "
+        "cancel-safety of the receive loop: a mock receiver whose receive() keeps a half-read frame inside the future, answers and "
+        "notifications delivered in two halves 2..4 inactivity ticks apart (step backsplit) -> every call completes with the answer "
+        "delivered, the client stays connected: keys correct-answer-not-delivered, healthy-connection-torn-down; tied to the source by "
+        "the translator fact recv_future_persistent = true, theorem C09_receive_future_persistent).  "
         "Oracle on the implementation alone: no panic, "
         "every pending and every later call/batch/subscribe completes with the disconnect cause (never a placeholder, never "
         "ServiceDisconnect/timeout), on_disconnect reports a classified cause")
